@@ -68,7 +68,9 @@ func c13Values(rng *rand.Rand) []any {
 		}{7, ""}, [1]string{"<script>"}, []byte("bytes"), map[string][]byte{"b": {0, 255}},
 	}
 	// values that marshal to null (no params member may be sent) and scalars (refused)
-	vals = append(vals, (*int)(nil), json.RawMessage("null"), json.RawMessage(" null\n"), map[string]int(nil), []int(nil), 5, "str", true)
+	vals = append(vals, (*int)(nil), json.RawMessage("null"), json.RawMessage(" null\n"), map[string]int(nil), []int(nil), 5, "str", true,
+		// pre-encoded text that is not one well-formed JSON value: must be refused, nothing sent
+		json.RawMessage(`{"name":"value"`), json.RawMessage(`[1,2][3]`), json.RawMessage(`[1,2,`))
 	// nested to depth 6
 	var nest any = []any{1}
 	for i := 0; i < 6; i++ {
@@ -160,7 +162,10 @@ func TestC13(t *testing.T) {
 		if v == nil {
 			qlines = append(qlines, "c13q -")
 		} else {
-			b, _ := json.Marshal(v)
+			b, err := json.Marshal(v)
+			if err != nil || len(b) == 0 {
+				b = []byte("!") // json.Marshal refuses the value: not even a scalar; the policy refuses it too
+			}
 			qlines = append(qlines, "c13q "+hx(b))
 		}
 	}
